@@ -84,6 +84,12 @@ def gen_cases(tier, seed):
         for mx in ((0.3, 0.6, 0.9, 0.95) if T else (0.3, 0.9)):
             for sd in range(8 if T else 3):
                 cases.append(dict(kind="slr", design="random", n=n, tb=0, scale=mx, sd=sd))
+    # complex polynomials with structure: a real design shifted in frequency (b[0] stays exactly real), zero-padded,
+    # with one coefficient made exactly real / exactly imaginary
+    for base in ("dzls", "msinc"):
+        for how in ("shift", "pad", "onereal", "oneimag"):
+            for n in (16, 32):
+                cases.append(dict(kind="slr", design="struct", base=base, how=how, n=n, tb=4, scale=0.7))
     for pt in ("ex", "se", "inv", "sat"):
         for ft in ("ms", "pm", "min", "max", "ls"):
             for n, tb in ((32, 4), (64, 8)):
@@ -223,13 +229,26 @@ def beta_poly(case, seed):
         b = slr.dzmp(n, tb)[::-1]
     elif des == "msinc":
         b = slr.msinc(n, tb / 4)
+    elif des == "struct":
+        b0 = np.asarray(slr.dzls(n, tb) if case["base"] == "dzls" else slr.msinc(n, tb / 4), dtype=complex)
+        k = np.arange(n)
+        if case["how"] == "shift":
+            b = b0 * np.exp(1j * 0.7 * k)                 # b[0] stays exactly real
+        elif case["how"] == "pad":
+            b = np.concatenate([b0 * np.exp(1j * 0.4 * (k + 1)), np.zeros(3, complex)])
+        elif case["how"] == "onereal":
+            b = b0 * np.exp(1j * (0.3 + 0.2 * k))
+            b[n // 2] = np.real(b[n // 2])
+        else:
+            b = b0 * np.exp(1j * (0.3 + 0.2 * k))
+            b[n // 3] = 1j * np.imag(b[n // 3])
     else:
         r = np.random.default_rng(900 + case["sd"] + seed)
         b = r.standard_normal(n) + 1j * r.standard_normal(n)
     b = np.asarray(b, dtype=complex)
     w = np.linspace(-np.pi, np.pi, 2049)
     B = np.abs(np.exp(-1j * np.outer(w, np.arange(len(b)))) @ b).max()
-    if des == "random":
+    if des in ("random", "struct"):
         b = b * (case["scale"] / B)
     else:
         b = b * case["scale"]
